@@ -94,9 +94,11 @@ Definition read_code (w : world) (s3on : bool) (m k : nat) (o : oracle) (impl : 
 (** one BODY[] read of a whole message: the model's contents of all rows (or
     the error), the GETs it issues, compared with the observed leaf bodies
     ([None] inside the list = not compared; [None] for the list = FETCH
-    answered NO). [written] = what the reconstruction writes for a content. *)
+    answered NO). [written] = what the reconstruction writes for a content
+    (writePartContentWithS3: the stored octets, then ALWAYS the CRLF that belongs to
+    the next delimiter, also after content that itself ends in CRLF). *)
 Definition written (multi : bool) (c : str) : str :=
-  if multi then (if has_suffix c crlf then c else c ++ crlf) else c.
+  if multi then c ++ crlf else c.
 Fixpoint opt_cmp (multi : bool) (model : list str) (obs : list (option str)) : bool :=
   match model, obs with
   | [], [] => true
